@@ -17,6 +17,7 @@ func init() {
 
 func runC04(c *Ctx) {
 	runC04NodeLister(c)
+	runC04Registration(c)
 	p, fx := c.P, c.Fx
 	const pkgFw = "pkg/scheduler/framework"
 	const pkgCommon = "pkg/scheduler/actions/common"
@@ -948,4 +949,39 @@ func runC04NodeLister(c *Ctx) {
 		}
 	}
 	c.Floor("O8", "PROV upstream PreFilter calls", np, 1)
+}
+
+// runC04Registration (O9, O10): two places where "every placement passes the filter" can be lost before any filter
+// runs.
+//
+//	O9  — the topology plugin registers its node-subsetting callback on EVERY path of OnSessionOpen: a shortcut for
+//	      "no Topology objects" leaves workloads that name a (missing) topology with a required level unconstrained;
+//	O10 — the node's pod-affinity bookkeeping hands EVERY pod to the upstream NodeInfo (AddPod / RemovePod): a pod
+//	      without an affinity stanza of its own is still what other pods' anti-affinity terms select.
+func runC04Registration(c *Ctx) {
+	if f := c.Anchor("O9", "pkg/scheduler/plugins/topology", "topologyPlugin", "OnSessionOpen"); f != nil {
+		isReg := func(in ssa.Instruction) bool {
+			cc, ok := in.(ssa.CallInstruction)
+			return ok && calleeOf(cc) != nil && calleeOf(cc).Name() == "AddSubsetNodesFn"
+		}
+		_, path, found := reachAvoiding([]cfgPos{entryPos(f)}, isReturn, isReg, nil)
+		c.Check(!found && len(instrsIn(f, isReg)) > 0, "O9", "MPT", funcKey(f)+": the node-subsetting callback is registered on every path", f.Pos(), "AddSubsetNodesFn on every path",
+			"OnSessionOpen can return without registering SubsetNodesFn ("+pathStr(path)+"): in such a session a required topology level is not enforced at all")
+	}
+	for _, m := range []struct{ name, up string }{{"AddPod", "AddPod"}, {"RemovePod", "RemovePod"}} {
+		f := c.Anchor("O10", "pkg/scheduler/cache/cluster_info", "K8sNodePodAffinityInfo", m.name)
+		if f == nil {
+			continue
+		}
+		isUp := func(in ssa.Instruction) bool {
+			cc, ok := in.(ssa.CallInstruction)
+			if !ok || calleeOf(cc) == nil || calleeOf(cc).Name() != m.up {
+				return false
+			}
+			return strings.Contains(funcPkgPath(calleeOf(cc)), "k8s.io/kubernetes/pkg/scheduler/framework") || strings.Contains(funcPkgPath(calleeOf(cc)), "k8s.io/kube-scheduler")
+		}
+		_, path, found := reachAvoiding([]cfgPos{entryPos(f)}, isReturn, isUp, nil)
+		c.Check(!found && len(instrsIn(f, isUp)) > 0, "O10", "MPT", funcKey(f)+": every pod reaches the upstream NodeInfo."+m.up, f.Pos(), "unconditional",
+			"a pod can be skipped by the node's pod-affinity bookkeeping ("+pathStr(path)+"): the upstream inter-pod-affinity filter does not see it, and a pod with a required anti-affinity term against its labels is placed next to it")
+	}
 }
